@@ -95,6 +95,11 @@ def run(report, tier, seed):
     if not res.ok:
         raise MachineryError("MCWeights: the model's semirings violate a law:\n" + res.errhead)
     report.add_tlc(res, "MCWeights: all semiring laws and the star law on every triple of every model carrier")
+    res = run_tlc("SemiringsTest", "INIT Init\nNEXT Next\nCHECK_DEADLOCK FALSE\n", timeout=300, workers=1)
+    if not res.ok:
+        raise MachineryError("SemiringsTest: a unit check of the model arithmetic failed:\n" + res.errhead)
+    report.add_tlc(res, "SemiringsTest: unit checks of the rational / two-limb fixed-point arithmetic and of the NaR sentinel "
+                        "for results outside the 32-bit range")
     standard_run(report, "C16", MODULE, tier, seed, selftests, trivial=(),
                  sample_keys=("op", "type", "fn", "a", "b", "res", "site"),
                  rule=("exhaustive operation tables of the 8 shipped types (Float both with exact and with float operands) on "
